@@ -196,11 +196,13 @@ pub fn check(sc: &Scenario, out: &RunOutput) -> OracleResult {
             // (a probe is cut from bytes the application has buffered beyond what is in flight:
             // a transmit buffer that cannot hold a segment in flight plus a larger probe never
             // gets to probe again - a limit of the configuration, not of the discovery)
-            // (the capacity the ring actually reached: it grows only under conditions of its own)
+            // (the capacity the ring had while data was buffered - it grows only under conditions
+            // of its own, possibly late: the smallest one seen decides, the whole transfer
+            // must have had room to probe)
             let ring_cap = h
                 .probes()
-                .filter_map(|(_, p)| if let librqbit_utp::verif::ProbeEvent::ConnPoll(s) = p { (s.key.local == v.me).then_some(s.tx_ring_cap) } else { None })
-                .max()
+                .filter_map(|(_, p)| if let librqbit_utp::verif::ProbeEvent::ConnPoll(s) = p { (s.key.local == v.me && s.tx_ring_len > 0).then_some(s.tx_ring_cap) } else { None })
+                .min()
                 .unwrap_or(0);
             let ring_ok = ring_cap >= 2 * fit + floor;
             if n_seg >= 200 && ring_ok {
